@@ -56,6 +56,10 @@ CLAIMED = {
             "Exploration with an exhaustive sub-grid: ~60 small base documents (every type, both formats) x the whole edit catalogue (truncation / deletion / duplication at every offset, every byte replaced by a hostile alphabet incl. all L nibbles and calendar values, insertion of 27 malformed tokens at every text position) = ~10^5 reference-rejected documents per quick run, plus 80 000 random edits of larger generated documents; each must end a full traversal with Err() != nil, then 5 more Next() calls return false with the same Err().",
             "Not used as witnesses (counted as discarded): edits that leave the document valid, rejections the reference marks undecided (DESIGN 9.4), symbol-ID / import errors (C10), unsorted sorted-structs, malformed content *inside* a top-level symbol-table struct other than truncation (a reader may skip ignored fields unvalidated), binary offsets beyond 23:59, local year 0/10000. Trusts the reference decoders.",
             "DESIGN.md section 5, C07; section 9"),
+    "C10": (PBT + " over generated stream histories (model-based generation: the generator keeps a running model of the symbol-ID space); reference-model oracle (independent reference decoders resolve the same bytes; cross-checked against the running model)",
+            "Exploration: 60 000 generated histories per quick run (2-12 events: version markers, replacing tables with 0-2 imports resolved against a catalog holding the exact / a newer / an older / no version and max_id absent / 0 / exact / smaller / larger, appending tables, user values using any ID that carries the wanted text, placeholder slots, $0, table-shaped structs below top level), rendered in binary and in text with $n spellings; ion-go must return the reference resolution, the right number of user values, the right SymbolTable().MaxID() after every value, and an error exactly for an unresolvable import.",
+            "Undefined local slots (null / non-string elements of symbols) and gaps in shared tables are not generated: ion-go deliberately represents them as the text \"\" (DESIGN C09/C10), which the statement does not cover. Duplicate imports / symbols fields and typed nulls in table fields are not generated (C06). Trusts the reference decoders and the running model (which must agree, else exit 2).",
+            "DESIGN.md section 5, C10; section 9.3"),
     "C19": ("fault enumeration + property-based testing with pgregory.net/rapid: every single split point / every read-fault offset / every failing Write-call index enumerated for a fixed set of documents and call sequences, random plans elsewhere; metamorphic oracle (any delivery plan vs whole buffer) and validity oracles (fault reported, sticky, accepted bytes a prefix)",
             "Fault enumeration: for ~100 fixed documents (hand-written lookahead-hungry texts/binaries + deterministic generator examples) every split point x {EOF alone, EOF with data} x {full, container-skipping traversal}, and a read failure at every byte offset x {alone, with data} x {persistent, one-off} x {whole, byte-at-a-time}; for 40 fixed call sequences x 4 writer configurations a write failure at every Write-call index x {nothing, half accepted} x {persistent, one-off}; plus ~17 000 random (document, plan) / (sequence, fault) cases per quick run including documents straddling bufio's 4096-byte buffer and corrupted documents.",
             "Faults are injected in the io.Reader / io.Writer the harness hands to ion-go (no hooks). A read plan returns at most one (0,nil) in a row. One-off (transient) faults are part of the fault model: the reader/writer must still report them. Trusts the harness's plan reader / fault writer, rapid, Go.",
